@@ -1,6 +1,6 @@
 """C09 - reconcile queue: per-item exclusion, coalescing, no loss, honoured backoff."""
 import json, os, re, copy
-import vlib
+import vlib, queuelib
 
 
 def run(ctx):
@@ -15,7 +15,10 @@ def run(ctx):
     json.dump(behs, open(inp, "w"))
     binary = vlib.go_build_test(ctx, "c09")
     out = os.path.join(ctx.scratch, "queue.ndjson")
-    vlib.go_run(ctx, binary, "TestQueue", {"VERIF_IN": inp, "VERIF_OUT": out}, timeout=2400)
+    henv, hdir = queuelib.traced(ctx, "testqueue")
+    vlib.go_run(ctx, binary, "TestQueue", dict({"VERIF_IN": inp, "VERIF_OUT": out}, **henv), timeout=2400)
+    # the same executions as the queue's own event loop saw them (transition hooks), judged by the same property-level judge
+    queuelib.judge_driver(ctx, hdir, "TestQueue")
     recs = vlib.read_ndjson(out)
     traces = vlib.split_traces(recs)
     mism, consumed, r = vlib.validate(ctx, "TraceQueue", "TraceQueue.cfg", out, timeout=2400)
@@ -34,6 +37,9 @@ def run(ctx):
                        "trace": [t for t in traces if t[0] == tid][0][1]})
     # part (b): qruntime back-off through a probe QController
     qruntime_part(ctx, binary, quick)
+    # part (c): the repository's own test suites (queue stress tests, queue controllers of the conformance suites) run with the
+    # transition hooks on; every transition of every queue's event loop is judged
+    queuelib.stage(ctx, ctx.tier)
     # binding self-test
     for tid, t in traces:
         idx = [i for i, x in enumerate(t) if x["ev"] == "get" and x["got"] == "item"]
